@@ -246,4 +246,11 @@ Section CI.
       try discriminate.
     inversion H; subst. eapply ci_run; [apply ci_init|exact E].
   Qed.
+  Lemma two_schedules : forall (s1 s2 : list Z) r1 st1 r2 st2,
+    drive lines t0 s1 = Ret (r1, st1) -> drive lines t0 s2 = Ret (r2, st2) -> r1 = r2.
+  Proof.
+    intros s1 s2 r1 st1 r2 st2 H1 H2.
+    destruct (drive_is_spec s1) as [x1 E1]. destruct (drive_is_spec s2) as [x2 E2].
+    rewrite H1 in E1. rewrite H2 in E2. inversion E1. inversion E2. reflexivity.
+  Qed.
 End CI.
